@@ -16,8 +16,12 @@
      integer conversion (truncate toward zero, error if outside the type's range or
      not finite); f32 = `float` conversion (round to nearest even, error if the result
      is not finite).  Missing value and no default: error.
-   * naga API contract (ir.PipelineConstants doc comment): a NaN entry means
-     "not set"; lookup by decimal @id first, then by name.
+     A NaN entry is a value like any other (WebIDL: boolean(NaN) = false; NaN is not
+     convertible to i32/u32/f32).  naga's doc comments on ir.PipelineConstants and
+     glsl.Options say "NaN means not set, use default" but its code, its tests
+     (TestProcessOverrides_ResolveByID), the corpus (overrides.toml: `0 = nan`) and Rust
+     naga all take NaN as the value; the specification follows WebGPU.
+   * lookup by decimal @id first, then by name (naga's documented keying).
    f32 division: WGSL allows 2.5 ULP; the spec takes the correctly rounded result. *)
 From Coq Require Import ZArith Bool List String Ascii.
 From Flocq Require Import IEEE754.BinarySingleNaN.
@@ -256,7 +260,7 @@ Definition eval_default (env : list value) (t : option ty) (e : expr) : res valu
 (* ------------------------------------------------------------------ supplied values *)
 Definition conv_value (t : ty) (f : f64) : res value :=
   match t with
-  | TBool => Ok (VBool (negb (f64_eq f f64_zero)))
+  | TBool => Ok (VBool (negb (f64_eq f f64_zero) && negb (f64_is_nan f)))
   | TI32 => if f64_finite f then
               let z := f64_trunc f in
               if (- H32 <=? z) && (z <? H32) then Ok (VI32 (wrap z)) else Err EConv
@@ -293,10 +297,9 @@ Definition lookup_key (m : vmap) (d : decl) : option Z :=
   | None => assoc_s (d_name d) m
   end.
 
-(* NaN = not set *)
 Definition supplied (m : vmap) (d : decl) : option f64 :=
   match lookup_key m d with
-  | Some b => let f := f64_of_bits b in if f64_is_nan f then None else Some f
+  | Some b => Some (f64_of_bits b)
   | None => None
   end.
 
